@@ -33,6 +33,7 @@ type gen struct {
 	props            []string            // all property + shorthand names
 	atoms            []string            // dictionary
 	accepted         map[string][]string // property -> atoms accepted alone
+	seeds            map[string][]string // property -> values found in /repo's own test files
 	discoveryCrashes []job
 	ffDesc, csDesc   []string
 }
@@ -42,7 +43,7 @@ var baseAtoms = []string{
 	"10px", "1em", "2ex", "1ch", "1rem", "3pt", "1in", "0px", "-5px", "1.5cm", "4mm", "5q", "1pc", "1vw", "10PX", "1e3px", "99999999999px", "-0px",
 	"50%", "100%", "-10%", "0%", "1e3%", "150%",
 	"90deg", "1rad", "1turn", "100grad", "-45deg", "1fr", "2fr", "0fr", "1s", "200ms", "96dpi", "2dppx", "1dpcm", "1x",
-	`"a"`, `""`, `'x y'`, `"\66"`, `"."`, `","`, "url(a.png)", `url("b")`, "url()", "url(data:,x)", `url(data:image/png;base64,AAAA)`,
+	`"a"`, `""`, `'x y'`, `"\66"`, `"."`, `","`, "url(a.png)", `url("b")`, "url()", "url(%zz)", "url(http://[::1]:namedport)", "url(#a)", "url(:)", `url("http://[::1")`, "url(//x)", "url(../../../a)", "url(\\0)", "url(data:,x)", `url(data:image/png;base64,AAAA)`,
 	"#fff", "#abcdef", "#12", "#12345678", "#ggg", "red", "transparent", "currentColor", "RED",
 	"rgb(1,2,3)", "rgba(1 2 3 / .5)", "rgb(100%, 0%, 0%)", "hsl(120,50%,50%)", "hsla(120deg 50% 50% / 10%)", "rgb()", "rgb(1,2)", "rgb(1 2 3 4 5)",
 	"calc(1px + 2px)", "calc(1px)", "calc()", "attr(x)", "attr(x px, 1)", "attr(x string)", "attr()", "attr(x, y, z)", "attr(data-x url)",
@@ -125,8 +126,40 @@ func newGen(r *vlib.Rng) *gen {
 	}
 	g.ffDesc = []string{"src", "font-family", "font-style", "font-weight", "font-stretch", "font-feature-settings", "font-variant", "unicode-range", "font-display", "foo"}
 	g.csDesc = []string{"system", "negative", "prefix", "suffix", "range", "pad", "fallback", "symbols", "additive-symbols", "speak-as", "foo"}
+	g.harvestSeeds(names)
 	g.discover()
 	return g
+}
+
+var declRe = regexp.MustCompile(`(?:^|[\s";{'` + "`" + `])([a-z-]{3,40})\s*:\s*([^;"}{\n` + "`" + `]{1,160})`)
+
+// harvestSeeds collects `property: value` pairs written in /repo's test files:
+// realistic multi-token values (valid and invalid) for the complex grammars.
+func (g *gen) harvestSeeds(names map[string]bool) {
+	g.seeds = map[string][]string{}
+	seen := map[string]bool{}
+	var files []string
+	for _, d := range []string{"css/validation", "css/parser", "html/tree", "html/layout", "html/boxes", "html/document", "svg", "html/tree/tests_ressources"} {
+		for _, pat := range []string{"*_test.go", "*.css", "*.html"} {
+			fs, _ := filepath.Glob(filepath.Join("/repo", d, pat))
+			files = append(files, fs...)
+		}
+	}
+	sort.Strings(files)
+	for _, f := range files {
+		b, err := os.ReadFile(f)
+		if err != nil {
+			continue
+		}
+		for _, m := range declRe.FindAllSubmatch(b, -1) {
+			p, v := string(m[1]), strings.TrimSpace(string(m[2]))
+			if !names[p] || v == "" || seen[p+"\x00"+v] {
+				continue
+			}
+			seen[p+"\x00"+v] = true
+			g.seeds[p] = append(g.seeds[p], v)
+		}
+	}
 }
 
 // discover: which atoms does each property accept alone?  (in-process, parallel;
@@ -283,6 +316,10 @@ func (g *gen) value(prop string) (string, []string) {
 		as[i] = g.atomFor(prop)
 	}
 	var tags []string
+	if sd := g.seeds[prop]; len(sd) > 0 && r.Chance(1, 3) {
+		as = strings.Fields(vlib.Pick(r, sd))
+		tags = append(tags, "seed")
+	}
 	for m := []int{0, 1, 1, 1, 2, 3}[r.Intn(6)]; m > 0; m-- {
 		var t string
 		as, t = g.mutateAtoms(as)
@@ -824,10 +861,17 @@ func (g *gen) generate(n int) []job {
 	for _, s := range svgLengths {
 		add("svgvalue", s, 0, "pool")
 	}
+	for _, s := range colorTexts {
+		add("colortok", s, 0, "pool")
+	}
+	for _, s := range atPreludes {
+		add("media", s, 0, "pool")
+	}
 	for _, s := range payloads {
 		add("unquote", s, 0, "pool")
 		add("unescape", s, 0, "pool")
 	}
+	out = append(out, g.deep()...)
 	for len(out) < n {
 		switch k := r.Intn(100); {
 		case k < 40: // property validators and expanders
@@ -888,11 +932,86 @@ func (g *gen) generate(n int) []job {
 			add("svgopacity", g.textMutate(vlib.Pick(r, []string{"1", "50%", "%", "", " % ", "5%%", "x%", " %"}), 3), 0)
 		case k < 98:
 			add("svgurl", g.textMutate(vlib.Pick(r, svgPaints), 2), 0)
-		case k < 99:
+		case k < 98 || r.Chance(1, 3):
 			add("painter", g.textMutate(vlib.Pick(r, svgPaints), 2), 0)
+		case k < 99 && r.Bool():
+			add("colortok", g.colorText(), 0)
+		case k < 99:
+			add("media", g.textMutate(vlib.Pick(r, atPreludes), 4), 0)
 		default:
 			add("fontweight", g.textMutate(vlib.Pick(r, []string{"normal", "bold", "400", "x", "", "99999999999999999999", "-1", "+7", "1e3"}), 3), 0)
 		}
 	}
 	return out
+}
+
+// ---------------------------------------------------------------- nesting depth
+
+// deep: inputs nested far deeper than any real document.  Depth 2000 must be
+// handled; the very deep ones (tags deep-nesting / deep-quadratic) exhaust the
+// goroutine stack of the recursive-descent tokenizer / parsers or take
+// quadratic time: they are the inputs of the known findings C07/deep-*.
+func (g *gen) deep() []job {
+	type d struct {
+		c, pat string
+		rep    int
+		tag    string
+	}
+	thorough := os.Getenv("VERIF_TIER") == "thorough"
+	var ds []d
+	shapes := []d{
+		{"cssparse", "\x00(\x00\x00)\x00", 0, ""}, {"cssparse", "\x00f(\x00\x00\x00", 0, ""}, {"cssparse", "\x00[\x00\x00\x00", 0, ""}, {"cssparse", "a\x00{\x00\x00\x00", 0, ""},
+		{"selector", "\x00:not(\x00a\x00)\x00", 0, ""}, {"selector", "\x00:is(\x00a\x00)\x00", 0, ""},
+		{"stylesheet", "\x00@media print{\x00\x00}\x00", 0, ""}, {"stylesheet", "\x00a{\x00\x00}\x00", 0, ""},
+		{"decl", "width:\x00calc(\x001px\x00)\x00", 0, ""}, {"decl", "width:\x00f(\x00var(--x)\x00)\x00", 0, ""}, {"decl", "background:\x00linear-gradient(\x00red\x00)\x00", 0, ""},
+		{"svg", "<svg xmlns=\"http://www.w3.org/2000/svg\">\x00<g>\x00\x00</g>\x00</svg>", 0, ""},
+		{"nth", "\x00(\x00\x00\x00", 0, ""}, {"pagesel", ":nth(\x00f(\x00\x00)\x00)", 0, ""},
+	}
+	for _, s := range shapes {
+		ds = append(ds, d{s.c, s.pat, g.r.Range(100, 400), "deep-ok"})
+	}
+	fatal := []d{
+		{"cssparse", "\x00(\x00\x00\x00", 1500000, "deep-nesting"},
+		{"selector", "\x00:not(\x00a\x00)\x00", 1000000, "deep-nesting"},
+		{"stylesheet", "\x00@media print{\x00\x00\x00", 500000, "deep-nesting"},
+		{"decl", "width:\x00calc(\x001px\x00)\x00", 9000, "deep-quadratic"},
+		{"stylesheet", "\x00a{\x00\x00}\x00", 5000, "deep-quadratic"},
+	}
+	ds = append(ds, fatal...)
+	if thorough {
+		ds = append(ds,
+			d{"cssparse", "\x00f(\x00\x00\x00", 1500000, "deep-nesting"}, d{"cssparse", "\x00[\x00\x00]\x00", 1500000, "deep-nesting"}, d{"cssparse", "a\x00{\x00\x00\x00", 1500000, "deep-nesting"},
+			d{"selector", "\x00:is(\x00a\x00)\x00", 1000000, "deep-nesting"}, d{"stylesheet", "a{\x00(\x00\x00\x00", 1500000, "deep-nesting"},
+			d{"decl", "width:\x00f(\x00var(--x)\x00)\x00", 9000, "deep-quadratic"})
+		for _, s := range shapes {
+			ds = append(ds, d{s.c, s.pat, g.r.Range(1000, 2000), "deep-ok"})
+		}
+	}
+	var out []job
+	for _, x := range ds {
+		out = append(out, job{C: x.c, S: x.pat, Rep: x.rep, Kind: "deep", Tags: []string{x.tag}})
+	}
+	return out
+}
+
+// ---------------------------------------------------------------- colours
+
+var colorTexts = []string{"red", "RED", "transparent", "currentColor", "foo", "#fff", "#FFF", "#ffffff", "#ff", "#ffff", "#fffff", "#fffffff", "#ggg", "#12g", "#", "#é", "#1é", "#\\31 23",
+	"rgb(1,2,3)", "rgb(1, 2, 3)", "rgb(1,2)", "rgb(1,2,3,4)", "rgb(1 2 3)", "rgb(1%,2%,3%)", "rgb(1,2%,3)", "rgb(1.5,2,3)", "rgb()", "rgb(,)", "rgb(1,,2)", "rgb(1,2,3,)", "rgb(,1,2,3)", "RGB(1,2,3)",
+	"rgba(1,2,3,0.5)", "rgba(1,2,3)", "rgba(1,2)", "rgba(1)", "rgba()", "rgba(1,2,3,4,5)", "rgba(1,2,3,50%)", "rgba(1%,2%,3%,1)", "rgba(1,2,3,x)", "rgba(1,2,3,)", "rgba(1,2,3,1e400)",
+	"hsl(120,50%,50%)", "hsl(120,50%)", "hsl(120.5,50%,50%)", "hsl(120,50,50)", "hsl(99999999999999999999,50%,50%)", "hsl(-120,150%,-50%)", "hsl()",
+	"hsla(120,50%,50%,1)", "hsla(120,50%,50%)", "hsla(1,2)", "hsla(1)", "hsla(120,50%,50%,1,2)", "hsla(120,50%,50%,1 2)",
+	"foo(1,2,3)", "rgb(1,2,3", "rgb(/**/1/**/,/**/2,3)", "rgb(1 , 2 , 3)", "rgb(1,2,3) x", "1", "10px", "50%", "\"red\"", "url(x)", "", " ", "(1,2,3)", "[1,2,3]", "rgb(rgb(1,2,3),2,3)", "rgb(var(--x),2,3)", "rgb(1;2;3)"}
+
+func (g *gen) colorText() string {
+	r := g.r
+	if r.Chance(1, 2) {
+		return g.textMutate(vlib.Pick(r, colorTexts), 2)
+	}
+	name := vlib.Pick(r, []string{"rgb", "rgba", "hsl", "hsla", "RGBA", "hsv", ""})
+	var args []string
+	for n := r.Range(0, 6); n > 0; n-- {
+		args = append(args, vlib.Pick(r, []string{"1", "255", "0", "-1", "50%", "100%", "0.5", "1.5", "x", "", " ", "1 2", "1e400", "99999999999999999999", "/**/", "var(--x)", "calc(1)", "\"a\""}))
+	}
+	return name + "(" + strings.Join(args, vlib.Pick(r, []string{",", ", ", " ", ",,", " , "})) + vlib.Pick(r, []string{")", ")", ")", "", ") x"})
 }
